@@ -162,7 +162,10 @@ add("C16",
     "kernel-checked witness that the guard is necessary. Per call, in any state (ZI/Props/C16.lean): C16_unregisterUtility, C16_registerUtility_events (a replacement emits "
     "Unregistered then Registered, a no-op nothing), C16_adapters, C16_subscriptions (one event per call that changed something, unregister returns whether anything "
     "was removed), C16_pinned_violates. The model is compared with both twins after every call, and return values, events, the four listings, utility / adapter / "
-    "subscription queries and the probe are judged against listings kept by the harness.",
+    "subscription queries and the probe are judged against listings kept by the harness. Histories include calls made by an event subscriber from inside the "
+    "delivery of a Registered / Unregistered event (the executor makes the next call of the history there): every event is sent when its call has finished "
+    "writing, so such a call composes like a following one; the one event sent mid-call (Unregistered of a replaced utility) composes as old-out / subscriber's "
+    "call / registration (repair 7054408).",
     "Guard HashClass (hashability is a function of the equality class; outside it the real code double-subscribes: known finding "
     "utilities-mixed-hashability-double-subscription, judged by the oracle only). Lookups are functions of the leaves by C04 / C07 (static specification graph). "
     "Events of the six non-utility methods follow interfaces.py ('an event is generated' per call).",
@@ -186,11 +189,13 @@ add("C11",
     "equals what is handed to the caller — nothing is leaked on any error branch, nothing released twice, the caller's references are never released, what is "
     "returned is a new reference; checkL_imp_check: the ledger check implies the memory-safety check); ZI.Detach.check_sound (no answer older than the live cache "
     "is ever stored into it, whatever invalidations happen during callbacks); ZI.Mutator.wipes_sound (no lookup running at a hook of a mutator leaves an answer "
-    "that the rest of the mutator outdates). The IR terms of _subcache, _getcache, _lookup, _lookup1, _lookupAll, _subscriptions, _verify, the iteration mode of the "
-    "loops run by changed() and the step IR of the twelve registry mutators are REGENERATED from the current C / Python sources on every run (tools/cextract.py, "
-    "fails closed) and Lean decides the twelve obligations. Runtime tie: thirteen re-entrancy scenario families x two flavours x up to seven entry points x both "
+    "that the rest of the mutator outdates); ZI.Resub.check_sound / cached_is_subscribed (AdapterLookupBase.changed() interrupted by lookups at its cache-drop "
+    "point, where destructors of cached values run: whatever is cached for a required specification afterwards is subscribed to it, for every accepted step "
+    "order; old_order_rejected: the order before repair 90f8c8c is rejected with its reachable bad state). The IR terms of _subcache, _getcache, _lookup, _lookup1, _lookupAll, _subscriptions, _verify, the iteration mode of the "
+    "loops run by changed(), the step sequence of AdapterLookupBase.changed and the step IR of the twelve registry mutators are REGENERATED from the current C / Python sources on every run (tools/cextract.py, "
+    "fails closed) and Lean decides the thirteen obligations. Runtime tie: sixteen re-entrancy scenario families x two flavours x up to seven entry points x both "
     "twins on the real code (stray write via the dict free list, stale answer, ancestor re-based in flight, leaks, lazy required, mutating __providedBy__, "
-    "Python-level __hash__ / __bool__ of the keys, storage hooks mid-walk, mutators interrupted at every storage access); thorough adds a thread stress.",
+    "Python-level __hash__ / __bool__ of the keys, generation reads, destructors of cached values, storage hooks mid-walk, mutators interrupted at every storage access); thorough adds a thread stress.",
     "stated_not_proved: C11_atomic at step granularity. Not modelled: preemption inside Python bytecode of the pure-Python twin finer than callbacks, free-threaded "
     "builds, allocator behaviour beyond the dict free list. _adapter_hook is not translated (covered by the scenarios). The translator's table of which C-API calls "
     "return borrowed / new references and which may run Python code is trusted (dictionary probes, PyObject_IsTrue and rich comparisons ARE callback points since "
